@@ -105,8 +105,6 @@ def harvest_hist(path):
 def run_family(ctx, phases=("hnsw", "random", "selftest")):
     quick = ctx.tier == "quick"
     part = ctx.go_build("cmd/part", "part")
-    if ctx.replay:
-        return replay_case(ctx, part)
     total = 0
     if "map" in phases:
         total += map_phase(ctx, part)
